@@ -177,7 +177,7 @@ def refusal_tables(v):
     T = [
         ('id-not-canonical', 'L', or_id),
         ('empty-field', 'L', lambda e: e['fact'] is not None and e['fact'][0] == 'val' and e['fact'][2] is True and e['fact'][1][0] == 'is_empty' and e['fact'][1][1][0] == 'msg'),
-        ('size-below-1', 'L', lambda e: isf(e, ('val', LT(M(v, 'size'), I(1)), True)) or isf(e, ('val', LT(M(v, 'quote_size'), I(1)), True))),
+        ('size-below-1', 'L', lambda e: is_sign(e['fact'], M(v, 'size'), 'zero') or is_sign(e['fact'], M(v, 'quote_size'), 'zero')),
         ('config-load', 'I', lambda e: is_storage_load_err(e['fact'], 'contract_info')),
         ('quote-unsupported', 'L', lambda e: isf(e, ('val', CONTAINS(F(CFG, 'supported_quote_denoms'), M(v, 'quote')), False))),
         ('size-not-lot-multiple', 'L', lambda e: isf(e, ('val', EQ(I(0), REM(M(v, 'size'), F(CFG, 'size_increment'))), False))),
